@@ -805,14 +805,14 @@ fn rt_new_token_roundtrip() {
     core::mem::forget(f);
 }
 
-/// C05 (pending — suspected genuine defect): NEW_TOKEN with a 64-byte token. `encoding_size()` and
+/// C05 (genuine defect on the pinned tree, fixed in /repo; kept so that a regression is reported): NEW_TOKEN with a 64-byte token. `encoding_size()` and
 /// `max_encoding_size()` hard-code ONE byte for the token-length varint (`1 + 1 + len`), but
 /// `put_frame` writes `put_varint(len)`, which takes two bytes from len = 64 on: the frame is
 /// admitted by `Package::dump` into 66 bytes of room and then writes 67.
 #[kani::proof]
 #[kani::stub(core::slice::index::slice_index_fail, stub_slice_index_fail)]
 #[kani::unwind(10)]
-fn c05_new_token_len64_size_pending() {
+fn c05_new_token_len64_size() {
     let token = [0u8; 64];
     let f = NewTokenFrame::from_slice(&token);
     let mut arr = [0u8; 80];
@@ -942,7 +942,7 @@ fn rt_close_quic_roundtrip<const L: usize>() {
     core::mem::forget(f);
 }
 
-/// C05 (pending — suspected genuine defect): CONNECTION_CLOSE (0x1c) whose Frame Type field is one
+/// C05 (genuine defect on the pinned tree, fixed in /repo; kept so that a regression is reported): CONNECTION_CLOSE (0x1c) whose Frame Type field is one
 /// of gm-quic's own 4-byte extension frame types (ADD_ADDRESS 0x3d7e90.., PUNCH_*): `encoding_size()`
 /// hard-codes ONE byte for the frame-type field, `put_frame` writes `put_varint(frame_type)` = 4
 /// bytes. Such a frame is produced by `QuicError::new(kind, fty.into(), ..)` for any error raised
@@ -950,7 +950,7 @@ fn rt_close_quic_roundtrip<const L: usize>() {
 #[kani::proof]
 #[kani::stub(core::slice::index::slice_index_fail, stub_slice_index_fail)]
 #[kani::unwind(12)]
-fn c05_close_quic_ext_type_size_pending() {
+fn c05_close_quic_ext_type_size() {
     let kind = any_error_kind();
     let fty = any_frame_type();
     kani::assume(VarInt::from(fty).encoding_size() == 4);
@@ -1144,7 +1144,7 @@ fn rt_crypto_capacity_fits() {
     }
 }
 
-/// C05 CRYPTO on the wire (room <= 72 bytes): offset < 2^61 (see the pending twin), any admitted length.
+/// C05 CRYPTO on the wire (room <= 72 bytes): any offset, any admitted length.
 fn crypto_roundtrip(offset: VarInt) {
     let capacity: usize = kani::any();
     kani::assume(capacity <= CAP);
@@ -1189,12 +1189,13 @@ fn crypto_roundtrip(offset: VarInt) {
 }
 
 fn rt_crypto_data_roundtrip() {
+    // any offset (offsets >= 2^61 used to be rejected by the decoder: defect fixed in /repo; the
+    // high half is additionally isolated in c05_crypto_high_offset)
     let offset = any_varint();
-    kani::assume(offset.into_u64() < (1 << 61));
     crypto_roundtrip(offset);
 }
 
-/// C05 (pending — suspected genuine defect): `be_crypto_frame` tests `offset + offset > VARINT_MAX`
+/// C05 (genuine defect on the pinned tree, fixed in /repo; kept so that a regression is reported): `be_crypto_frame` tests `offset + offset > VARINT_MAX`
 /// (typo for `offset + length`), so a valid CRYPTO frame with offset >= 2^61 (offset + length <=
 /// 2^62-1) is encodable but its own decoder rejects it (TooLarge -> FRAME_ENCODING_ERROR).
 fn rt_crypto_high_offset() {
@@ -1538,7 +1539,7 @@ dual! {
 }
 
 dual! {
-    /// C05 CRYPTO (offset < 2^61) and DATAGRAM on the wire (<= 72 bytes).
+    /// C05 CRYPTO and DATAGRAM on the wire (<= 72 bytes).
     c05_crypto_datagram_roundtrip, c05_crypto_datagram_roundtrip_real, 10, 10, {
         if kani::any() {
             rt_crypto_data_roundtrip()
@@ -1548,13 +1549,13 @@ dual! {
     }
 }
 
-/// C05 (pending — suspected genuine defect): `be_crypto_frame` tests `offset + offset > VARINT_MAX`
+/// C05 (genuine defect on the pinned tree, fixed in /repo; kept so that a regression is reported): `be_crypto_frame` tests `offset + offset > VARINT_MAX`
 /// (typo for `offset + length`), so a valid CRYPTO frame with offset >= 2^61 (offset + length <=
 /// 2^62-1) is encodable but its own decoder rejects it (TooLarge -> FRAME_ENCODING_ERROR).
 #[kani::proof]
 #[kani::stub(core::slice::index::slice_index_fail, stub_slice_index_fail)]
 #[kani::unwind(10)]
 #[kani::stub(crate::varint::be_varint, model_be_varint)]
-fn c05_crypto_high_offset_pending() {
+fn c05_crypto_high_offset() {
     rt_crypto_high_offset()
 }
